@@ -334,8 +334,8 @@ def l6(cx):
                                    'runs in between panics (and poisons the Mutex for everybody else)' % (b, a, reader, b, a), fn['span'], witness(g, pred, bad[0], interesting_default)))
             else:
                 res.append(Finding(ID, 'L6', key, True, '`%s` is emptied before `%s` (reader %s relies on %s non-empty => %s non-empty)' % (a, b, reader, a, b), fn['span']))
-    if not cx.control and len(deps) < 5:
-        res.append(Finding(ID, 'L6', 'floor', False, 'expected the observers/chamber pair of the 5 subject types, found %d pairs' % len(deps)))
+    if not cx.control and not deps:
+        res.append(Finding(ID, 'L6', 'no paired cells', True, 'no reader unwraps one shared cell under the guard of another: nothing to order'))
     return res
 
 
